@@ -26,6 +26,8 @@ func aggPatterns[S any](t *T, api string, mk func(i int) S, alloc func(dirty boo
 		return
 	}
 	r0 := snapString(&o)
+	// the aggregate allocated by the caller must not end up sharing storage with either share
+	t.independentAny(api, api+" fresh", []any{&o}, []named{{"share1", &a}, {"share2", &b}})
 	chk := func(pat string, got any) {
 		t.c.Eval(1)
 		t.c.Count("outputs_compared", 1)
@@ -126,6 +128,7 @@ func runMultiparty(c *eng.Ctx, cfg pcfg) {
 			}
 			sk := e.sk.CopyNew()
 			crpc := crp
+			t.out(&s)
 			return []named{{"sk", sk}, {"crp", &crpc}}, func() (string, error) { pr.GenShare(sk, crpc, &s); return snapString(&s), nil }
 		}})
 		pr := mkP("agg")
@@ -146,6 +149,7 @@ func runMultiparty(c *eng.Ctx, cfg pcfg) {
 				dirtyAny(&pk.Value)
 			}
 			crpc := crp
+			t.out(pk)
 			return []named{{"share", &s}, {"crp", &crpc}}, func() (string, error) { pr.GenPublicKey(s, crpc, pk); return snapString(pk), nil }
 		}})
 	}
@@ -174,6 +178,7 @@ func runMultiparty(c *eng.Ctx, cfg pcfg) {
 				}
 				sk := e.sk.CopyNew()
 				crpc := crp
+				t.out(&s)
 				return []named{{"sk", sk}, {"crp", &crpc}}, func() (string, error) { err := pr.GenShare(sk, e.galEl, crpc, &s); return snapString(&s), err }
 			}})
 			pr := mkP("agg")
@@ -194,6 +199,7 @@ func runMultiparty(c *eng.Ctx, cfg pcfg) {
 					gk.NthRoot = 3
 				}
 				crpc := crp
+				t.out(gk)
 				return []named{{"share", &s}, {"crp", &crpc}}, func() (string, error) { err := pr.GenGaloisKey(s, crpc, gk); return snapString(gk), err }
 			}})
 		} else {
@@ -222,6 +228,7 @@ func runMultiparty(c *eng.Ctx, cfg pcfg) {
 			}
 			sk, sk2 := e.sk.CopyNew(), e.sk2.CopyNew()
 			crpc := crp
+			t.out(&s)
 			return []named{{"skIn", sk}, {"skOut", sk2}, {"crp", &crpc}}, func() (string, error) { err := pr.GenShare(sk, sk2, crpc, &s); return snapString(&s), err }
 		}})
 		pr := mkP("agg")
@@ -241,6 +248,7 @@ func runMultiparty(c *eng.Ctx, cfg pcfg) {
 				dirtyAny(&evk.GadgetCiphertext.Value)
 			}
 			crpc := crp
+			t.out(evk)
 			return []named{{"share", &s}, {"crp", &crpc}}, func() (string, error) { err := pr.GenEvaluationKey(s, crpc, evk); return snapString(evk), err }
 		}})
 	}
@@ -271,6 +279,7 @@ func runMultiparty(c *eng.Ctx, cfg pcfg) {
 			}
 			sk := e.sk.CopyNew()
 			crpc := crp
+			t.out(&r1, eph) // both are outputs of round one (the call samples the ephemeral secret)
 			return []named{{"sk", sk}, {"crp", &crpc}}, func() (string, error) {
 				pr.GenShareRoundOne(sk, crpc, eph, &r1)
 				return snapString(&r1) + snapString(eph), nil
@@ -284,6 +293,7 @@ func runMultiparty(c *eng.Ctx, cfg pcfg) {
 				dirtyAny(&r2)
 			}
 			sk := e.sk.CopyNew()
+			t.out(&r2)
 			return []named{{"sk", sk}, {"ephSk", x.eph}, {"round1", &x.r1}}, func() (string, error) {
 				pr.GenShareRoundTwo(x.eph, sk, x.r1, &r2)
 				return snapString(&r2), nil
@@ -307,6 +317,7 @@ func runMultiparty(c *eng.Ctx, cfg pcfg) {
 			if dirty {
 				dirtyAny(&rlk.GadgetCiphertext.Value)
 			}
+			t.out(rlk)
 			return []named{{"round1", &x.r1}, {"round2", &x.r2}}, func() (string, error) {
 				pr.GenRelinearizationKey(x.r1, x.r2, rlk)
 				return snapString(rlk), nil
@@ -343,6 +354,7 @@ func runMultiparty(c *eng.Ctx, cfg pcfg) {
 				s = pr.AllocateShare(lvl)
 			}
 			sk, sk2, ct := e.sk.CopyNew(), e.sk2.CopyNew(), ct0.CopyNew()
+			t.out(&s)
 			return []named{{"skInput", sk}, {"skOutput", sk2}, {"ct", ct}}, func() (string, error) {
 				pr.GenShare(sk, sk2, ct, &s)
 				return cvalString(canonPoly(rq, s.Value)), nil
@@ -394,6 +406,7 @@ func runMultiparty(c *eng.Ctx, cfg pcfg) {
 				dirtyAny(&s.Value)
 			}
 			sk, ct := e.sk.CopyNew(), ct0.CopyNew()
+			t.out(&s)
 			return []named{{"sk", sk}, {"pk", e.pk}, {"ct", ct}}, func() (string, error) {
 				pr.GenShare(sk, e.pk, ct, &s)
 				return cvalString(canonEl(rq, &s.Element)), nil
@@ -428,6 +441,17 @@ func runMultiparty(c *eng.Ctx, cfg pcfg) {
 		reseed("shamir")
 		poly, err := thr.GenShamirPolynomial(2, e.sk)
 		if err == nil {
+			// the Shamir polynomial returned by the call holds a copy of the secret (its constant term)
+			t.runSimple(simple{api: "multiparty.Thresholdizer.GenShamirPolynomial", variant: "-", build: func(dirty bool) ([]named, func() (string, error)) {
+				reseed("shamir-poly")
+				th := multiparty.NewThresholdizer(p)
+				sk := e.sk.CopyNew()
+				return []named{{"secret", sk}}, func() (string, error) {
+					sp, err := th.GenShamirPolynomial(2, sk)
+					t.out(&sp)
+					return snapString(&sp), err
+				}
+			}})
 			mkShare := func(i int) multiparty.ShamirSecretShare {
 				s := thr.AllocateThresholdSecretShare()
 				thr.GenShamirSecretShare(multiparty.ShamirPublicPoint(i+1), poly, &s)
@@ -438,6 +462,7 @@ func runMultiparty(c *eng.Ctx, cfg pcfg) {
 				if dirty {
 					dirtyAny(&s)
 				}
+				t.out(&s)
 				return []named{{"secretPoly", &poly}}, func() (string, error) {
 					thr.GenShamirSecretShare(3, poly, &s)
 					return snapString(&s), nil
@@ -461,11 +486,36 @@ func runMultiparty(c *eng.Ctx, cfg pcfg) {
 					dirtyAny(&sk.Value)
 				}
 				act := append([]multiparty.ShamirPublicPoint(nil), pts[:2]...)
+				t.out(sk)
 				return []named{{"activePoints", &act}, {"ownShare", &own}}, func() (string, error) {
 					err := cmb.GenAdditiveShare(act, 1, own, sk)
 					return snapString(sk), err
 				}
 			}})
+			// history of the Combiner itself: threshold 3 of 4, the same object has served another active set (and the
+			// same one) before; the share must be the one a new Combiner gives
+			if poly3, err3 := thr.GenShamirPolynomial(3, e.sk); err3 == nil {
+				pts4 := []multiparty.ShamirPublicPoint{1, 2, 3, 4}
+				t.runSimple(simple{api: "multiparty.Combiner.GenAdditiveShare", variant: "t3-combiner-used-before", build: func(dirty bool) ([]named, func() (string, error)) {
+					cmb := multiparty.NewCombiner(p, 1, pts4, 3)
+					own := thr.AllocateThresholdSecretShare()
+					thr.GenShamirSecretShare(1, poly3, &own)
+					sk := rlwe.NewSecretKey(p)
+					act := []multiparty.ShamirPublicPoint{1, 2, 3}
+					if dirty {
+						tmp := rlwe.NewSecretKey(p)
+						_ = cmb.GenAdditiveShare([]multiparty.ShamirPublicPoint{1, 3, 4}, 1, own, tmp)
+						_ = cmb.GenAdditiveShare([]multiparty.ShamirPublicPoint{3, 2, 1}, 1, own, tmp)
+						_ = cmb.GenAdditiveShare([]multiparty.ShamirPublicPoint{2, 4, 1}, 1, own, tmp)
+						t.c.Count("combiner_history_runs", 1)
+					}
+					t.out(sk)
+					return []named{{"activePoints", &act}, {"ownShare", &own}}, func() (string, error) {
+						err := cmb.GenAdditiveShare(act, 1, own, sk)
+						return snapString(sk), err
+					}
+				}})
+			}
 		}
 	}
 }
